@@ -103,19 +103,19 @@ package vm
 //@   ensures r == old(m.Stack)[len(old(m.Stack)) - 1] && r != nil
 
 //@ func (m *Machine) pushValue(v machine.Value)
-//@   property W01
+//@   property C22 C23 C27
 //@   modifies m
 //@   ensures unchangedExcept(m, old(m), Stack) && len(m.Stack) == len(old(m.Stack)) + 1 && m.Stack[len(old(m.Stack))] == v
 //@   ensures forall i int :: {m.Stack[i]} 0 <= i && i < len(old(m.Stack)) ==> m.Stack[i] == old(m.Stack)[i]
 //@   ensures forall a machine.AccountAddress, x machine.Asset :: {infl(m.Stack, a, x)} {infl(old(m.Stack), a, x)} infl(m.Stack, a, x) == infl(old(m.Stack), a, x) + ((is(v, machine.Funding) && v.(machine.Funding).Asset == x) ? sumBy(v.(machine.Funding).Parts, a) : 0)
 
 //@ func (m *Machine) getResource(addr machine.Address) (r *machine.Value, ok bool)
-//@   property W01
+//@   property C22 C23 C27
 //@   ensures ok == (addr < len(m.Resources))
 //@   ensures ok ==> r != nil && deref(r) == m.Resources[addr]
 
 //@ func (m *Machine) tick() (finished bool, err error)
-//@   property W01
+//@   property C22 C23 C27
 //@   requires m.P < len(m.Program.Instructions)
 //@   requires m.Program.Instructions[m.P] == program.OP_APUSH ==> m.P + 3 <= len(m.Program.Instructions)
 //@   requires m.Program.Instructions[m.P] == program.OP_BUMP ==> len(m.Stack) > 0 && is(m.Stack[len(m.Stack) - 1], *machine.MonetaryInt) && 0 <= val(m.Stack[len(m.Stack) - 1].(*machine.MonetaryInt)) && val(m.Stack[len(m.Stack) - 1].(*machine.MonetaryInt)) < len(m.Stack) - 1
